@@ -80,13 +80,18 @@ impl Cache {
         self.spec_n() >= 2 && self.spec_loads() == self.spec_n()
     }
 
-    /// Every shard directory of this cache is a configured read-write cache directory.
-    pub open spec fn rw(&self, w: World) -> bool {
+    /// Every shard directory of this cache is a configured read-write cache directory (a function of the
+    /// configuration pair (cache_dirs, ro_roots) only).
+    pub open spec fn rw_cfg(&self, cfg: (Set<PathV>, Set<PathV>)) -> bool {
         &&& self.wf()
-        &&& forall|i: usize| i < self.spec_n() ==> #[trigger] w.cache_dirs.contains(shard_dir_of(self.spec_root(), i))
-        &&& forall|i: usize, n: Seq<u8>| i < self.spec_n() ==> !w.under_ro(#[trigger] child(shard_dir_of(self.spec_root(), i), n))
-        &&& forall|i: usize, n: Seq<u8>| i < self.spec_n() ==> !w.under_ro(#[trigger] child(child(shard_dir_of(self.spec_root(), i), temp_name()), n))
-        &&& forall|i: usize| i < self.spec_n() ==> !w.under_ro(#[trigger] shard_dir_of(self.spec_root(), i)) && !w.under_ro(child(shard_dir_of(self.spec_root(), i), temp_name()))
+        &&& forall|i: usize| i < self.spec_n() ==> #[trigger] cfg.0.contains(shard_dir_of(self.spec_root(), i))
+        &&& forall|i: usize, n: Seq<u8>| i < self.spec_n() ==> !under_ro_of(cfg.1, #[trigger] child(shard_dir_of(self.spec_root(), i), n))
+        &&& forall|i: usize, n: Seq<u8>| i < self.spec_n() ==> !under_ro_of(cfg.1, #[trigger] child(child(shard_dir_of(self.spec_root(), i), temp_name()), n))
+        &&& forall|i: usize| i < self.spec_n() ==> !under_ro_of(cfg.1, #[trigger] shard_dir_of(self.spec_root(), i)) && !under_ro_of(cfg.1, child(shard_dir_of(self.spec_root(), i), temp_name()))
+    }
+
+    pub open spec fn rw(&self, w: World) -> bool {
+        self.rw_cfg(w.cfg())
     }
 }
 
@@ -134,6 +139,9 @@ pub proof fn lemma_shard_rw(c: Cache, w: World, i: usize)
         forall|n: Seq<u8>| !w.under_ro(#[trigger] child(shard_dir_of(c.spec_root(), i), n)),
         forall|n: Seq<u8>| !w.under_ro(#[trigger] child(child(shard_dir_of(c.spec_root(), i), temp_name()), n)),
 {
+    assert(w.cfg().0 == w.cache_dirs && w.cfg().1 == w.ro_roots);
+    assert(c.rw_cfg(w.cfg()));
+    assert(w.cfg().0.contains(shard_dir_of(c.spec_root(), i)));
 }
 
 pub proof fn lemma_sharded_from_write(old: World, fin: World, root: PathV, n: usize, i: usize, name: Seq<u8>, value: PathV)
